@@ -2,6 +2,8 @@ package props
 
 import (
 	"fmt"
+	"os"
+	"strings"
 	"testing"
 	"time"
 
@@ -46,7 +48,7 @@ func TestC15AfterRefusal(t *testing.T) {
 		{Kind: wire.Delete, Key: "kb"},
 		{Kind: wire.Get, Keys: []string{"kb", "ka"}},
 	}
-	statuses := []uint16{0x82, 0x85, 0x86}
+	statuses := []uint16{0x82, 0x85, 0x86, 0xfffe, 0xffff, 0xfffd} // the last three stand for: connection closed before / after processing (no reply), and closed while the client was idle
 	idx, cases, fired := 0, 0, 0
 	for _, cc := range c15Configs() {
 		if cc.Cfg.L1 == "cluster" {
@@ -79,6 +81,7 @@ func TestC15AfterRefusal(t *testing.T) {
 						setup.Do(wire.Cmd{Kind: wire.Set, Key: "kb", Value: mkValue(3, 2300), Flags: 2})
 						setup.Close()
 						baseL1, baseL2, baseG := c15Baseline(st, cc.Port)
+						baseFD := openFDs()
 						target := st.L1
 						if tier == "L2" {
 							target = st.L2
@@ -87,7 +90,17 @@ func TestC15AfterRefusal(t *testing.T) {
 						cl := wire.NewClient(st.Dial(cc.Port), binary)
 						cl.Timeout = hangBound()
 						cl.Do(wire.Cmd{Kind: wire.Version}) // the server has accepted us and opened our backend connections
-						target.Arm(&fakemc.Fault{At: at, Kind: fakemc.FaultStatus, Status: status})
+						switch status {
+						case 0xfffd:
+							target.CloseConns() // only this client's backend connection is open at this moment
+							time.Sleep(time.Millisecond)
+						case 0xfffe:
+							target.Arm(&fakemc.Fault{At: at, Kind: fakemc.FaultCloseBefore})
+						case 0xffff:
+							target.Arm(&fakemc.Fault{At: at, Kind: fakemc.FaultCloseAfterProc})
+						default:
+							target.Arm(&fakemc.Fault{At: at, Kind: fakemc.FaultStatus, Status: status})
+						}
 						cc2 := cmd
 						cc2.Port = cc.Port
 						_, err := cl.Do(cc2)
@@ -109,6 +122,18 @@ func TestC15AfterRefusal(t *testing.T) {
 							}
 						}
 						if msg == "" {
+							// the process holds no more descriptors than before the client came: a
+							// backend connection that the backend has closed already must be closed on
+							// rend's side too (the fake cannot see that end)
+							deadline := time.Now().Add(20 * time.Second)
+							for openFDs() > baseFD && time.Now().Before(deadline) {
+								time.Sleep(2 * time.Millisecond)
+							}
+							if n := openFDs(); n > baseFD {
+								msg = fmt.Sprintf("twenty seconds after the client left the process holds %d open descriptors, %d before the client connected: %s", n, baseFD, fdList())
+							}
+						}
+						if msg == "" {
 							fc := wire.NewClient(st.Dial(cc.Port), true)
 							fc.Timeout = hangBound()
 							v := mkValue(uint32(at+ci), 40)
@@ -125,6 +150,9 @@ func TestC15AfterRefusal(t *testing.T) {
 						if f > 0 {
 							fired++
 						}
+						if status == 0xfffd {
+							f = 1
+						}
 						rec.Case(f > 0, fmt.Sprintf("refusal|%+v", c), "disconnect-after-backend-refusal")
 						if msg != "" {
 							rp := rec.Violation("TestC15AfterRefusal", c)
@@ -140,4 +168,25 @@ func TestC15AfterRefusal(t *testing.T) {
 	}
 	rec.ClassN("refusal-cases", int64(cases))
 	rec.Sample(true, map[string]interface{}{"disconnect_after_refusal_cases": cases, "cases_in_which_the_refusal_fired": fired})
+}
+
+// openFDs counts the descriptors of this process (harness, fakes and the
+// server under test share it).
+func openFDs() int {
+	ents, err := os.ReadDir("/proc/self/fd")
+	if err != nil {
+		return 0
+	}
+	return len(ents)
+}
+
+func fdList() string {
+	ents, _ := os.ReadDir("/proc/self/fd")
+	var out []string
+	for _, e := range ents {
+		if l, err := os.Readlink("/proc/self/fd/" + e.Name()); err == nil && strings.HasPrefix(l, "socket:") {
+			out = append(out, e.Name()+"->"+l)
+		}
+	}
+	return strings.Join(out, " ")
 }
